@@ -171,17 +171,26 @@ def run(R, env):
                         reads = True
         if reads:
             readers[b.key] = b
-    for k, b in readers.items():
-        role = None
-        base = k.split("::{closure")[0]
+    def role_of_reader(base, depth=2):
         if base in poster_bodies:
-            role = "poster"
-        elif _constructs(prog, base, "ProtocolChainConfig") and "migrations" not in base:
-            role = "validate"
-        elif _constructs(prog, base, "ConfigResponse"):
-            role = "config-query"
-        elif "::migrations::" in base:
-            role = "migration"
+            return "poster"
+        if _constructs(prog, base, "ProtocolChainConfig") and "migrations" not in base:
+            return "validate"
+        if _constructs(prog, base, "ConfigResponse"):
+            return "config-query"
+        if "::migrations::" in base:
+            return "migration"
+        if depth > 0:
+            # a private helper of a reviewed reader (`self.validated_oracle_address()` called only from validate)
+            callers = set(cb_.key.split("::{closure")[0] for cb_ in prog.fn_bodies(CRATE) for _, ct_ in cb_.calls() if ct_.get("rkey") == base and "::tests::" not in cb_.key)
+            roles = set(role_of_reader(c_, depth - 1) for c_ in callers)
+            if callers and len(roles) == 1 and None not in roles:
+                return roles.pop()
+        return None
+
+    for k, b in readers.items():
+        base = k.split("::{closure")[0]
+        role = role_of_reader(base)
         R.ob("C15.R4", "oracle_address-reader:" + base.split("::", 1)[1], role in ORACLE_READERS, "%s reads oracle_address but is none of the reviewed readers %s: behaviour may differ between the oracle/no-oracle configurations" % (k, sorted(ORACLE_READERS)), loc="%s:%s" % (b.span["file"], b.span["line"]), fn=k)
     R.floor("C15.R4", "functions reading oracle_address", len(readers), 3)
 
